@@ -237,7 +237,7 @@ def gen_random(rng, big):
     dtn = rng.choice(DTS)
     data_type = data_type_of(dtn, rng.randrange(10))
     defaults = {'int': [0, -1, 7], 'uint': [0, 5], 'float': [0.0, -1.0, 2], 'bool': [False, True],
-                'obj': [0, '', [], 'seed', (0,)], 'mapper': [5, 'ignored']}[dtn]
+                'obj': [0, '', [], 'seed', (0,), dict, len, _Celsius], 'mapper': [5, 'ignored']}[dtn]   # (callables are values too)
     default = rng.choice(defaults) if rng.random() < 0.5 else None
     style = rng.choice(['small', 'sparse', 'descending', 'mixed'])
     top = 2000 if big else 60
